@@ -103,7 +103,7 @@ func Run(run *vh.Run) {
 		"Oracle: the survivors (stack discipline over the sequence) are replayed without any Snapshot on a second StateDB over an identical branch; after every revert and at the end all getters, keeper views, white-box clones and the full store dump through the current context must agree, " +
 		"per-operation outcomes (return value / error / panic) must agree, nothing may reach the original context before commit, and after commit full dumps and SDK events (operation events in order, commit-phase events as multiset) must agree. " +
 		"Non-trivial = distinct (set of operation kinds undone x revert pattern depth>target) among sequences where a revert undid at least one executed operation. " +
-		"(2) Generated puppet call trees (<= 7 nodes, depth <= 4; CALL/CALLCODE/DELEGATECALL children with ignore/propagate, STOP/REVERT/INVALID ends; leaves: SSTORE, LOG, value transfer, ERC-20 transfer/approve/burn, staking delegate/undelegate/withdrawReward via CALL/CALLCODE/DELEGATECALL/STATICCALL) run as real transactions, " +
+		"(2) Generated puppet call trees (<= 7 nodes, depth <= 4; CALL/CALLCODE/DELEGATECALL children with ignore/propagate, STOP/REVERT/INVALID ends; leaves: SSTORE, LOG, value transfer, value-0 touch of an existing empty account, SELFDESTRUCT of the running context (as the end of a child), ERC-20 transfer/approve/burn, staking delegate/undelegate/withdrawReward via CALL/CALLCODE/DELEGATECALL/STATICCALL) run as real transactions, " +
 		"directly or through persistent DELEGATECALL proxies that hold delegations with accrued rewards; a fold of the tree with snapshot semantics over leaf models predicts every footprint key, the receipt logs and the transaction status; the per-transaction write set over all stores must contain exactly the surviving effects plus the fee flow. " +
 		"Non-trivial = distinct (mode x tree shape) among trees in which at least one executed effect was reverted. " +
 		"(3) Every transaction with receipt status 0 in the tree workload and in a generated-program workload (REVERT, INVALID, out of gas at arbitrary points, failing creates): write set within sender nonce + fee flow."
@@ -141,7 +141,7 @@ func Run(run *vh.Run) {
 			run.Floor("m2 reverted "+k+" leaves", run.Get("m2_leaf_"+k+"_reverted"), treeN/16)
 			run.Floor("m2 surviving "+k+" leaves", run.Get("m2_leaf_"+k+"_survived"), treeN/40)
 		}
-		for _, k := range []string{"stake-undelegate", "stake-withdraw"} {
+		for _, k := range []string{"stake-undelegate", "stake-withdraw", "selfdestruct", "touch"} {
 			run.Floor("m2 reverted "+k+" leaves", run.Get("m2_leaf_"+k+"_reverted"), treeN/50)
 			run.Floor("m2 surviving "+k+" leaves", run.Get("m2_leaf_"+k+"_survived"), treeN/80)
 		}
